@@ -103,6 +103,10 @@ def build(setup):
     if setup['supplemental'] and setup.get('supp_missing'):
         sources.append({'name': 'orders', 'file': 'data/orders.csv', 'format': '{date:%m/%d/%Y}, {id}, {item}, {amount}',
                         'columns': {'description': '{item}'}, 'supplemental': True})            # configured, but the file is not there
+    elif setup['supplemental'] and setup.get('supp_regex'):
+        b.write('data/orders.csv', '\n'.join('01/01/2025 %s %s 5.00' % o for o in ORDERS) + '\n')
+        sources.append({'name': 'orders', 'file': 'data/orders.csv', 'format': '{date:%m/%d/%Y}, {id}, {item}, {amount}', 'delimiter': 'regex:^(\\S+) (\\S+) (\\S+) (\\S+)$',
+                        'has_header': False, 'columns': {'description': '{item}'}, 'supplemental': True})
     elif setup['supplemental']:
         b.write('data/orders.csv', 'Date,Id,Item,Amount\n' + '\n'.join('01/01/2025,%s,%s,5.00' % o for o in ORDERS) + '\n')
         sources.append({'name': 'orders', 'file': 'data/orders.csv', 'format': '{date:%m/%d/%Y}, {id}, {item}, {amount}',
@@ -210,7 +214,9 @@ def check(setup, label):
             if want:
                 O.fail('C11.no_report.%s' % label.split(':')[0], dict(w, quiet=quiet), norm(want), info)
             continue
-        if norm(got) != norm(want):
+        if norm(got) != norm(want) and setup.get('supp_regex'):
+            O.fail('C11.supplemental_regex_delimiter_not_supported', dict(w, quiet=quiet), norm(want), norm(got), 'tally up --format json -v')
+        elif norm(got) != norm(want):
             O.fail('C11.report_differs.%s%s' % (label.split(':')[0], '.quiet' if quiet else ''), dict(w, quiet=quiet), norm(want), norm(got), 'tally up --format json -v')
         if not quiet:
             # "a source that is missing or unreadable is reported": its name is on a progress line that does not announce transactions
@@ -242,7 +248,7 @@ def main():
                 if key == 'decimal_separator' and v == ',' and s[src]['delimiter'] is None:
                     s[src]['delimiter'] = ';'
                 check(s, '%s.%s:%r' % (src, key, v))
-    for key, v in (('rule_mode', 'most_specific'), ('views', True), ('supplemental', False), ('specific_rules', True), ('supp_euro', True), ('supp_named', True), ('supp_missing', True)):
+    for key, v in (('rule_mode', 'most_specific'), ('views', True), ('supplemental', False), ('specific_rules', True), ('supp_euro', True), ('supp_named', True), ('supp_missing', True), ('supp_regex', True)):
         s = copy.deepcopy(base)
         s[key] = v
         check(s, '%s:%r' % (key, v))
